@@ -316,7 +316,7 @@ def run(ctx) -> list[Inst]:
     cfg = ctx.cfg(f)
     R = ctx.R(f)
     rel = f.module.relpath
-    props_d = ('C02', 'C05')
+    props_d = ('C02', 'C05', 'C01')
     construct_d = '(d) asset.name reaching asset_names.add was tested after its last assignment'
     adds = []
     for n in own_nodes(f.node):
@@ -386,7 +386,34 @@ def run(ctx) -> list[Inst]:
 
         bad = []
         seen = set()
-        st = [(snode, 'asset.name', frozenset())]
+        # what is recorded: the asset's name, or a local (followed through its definitions like any other copy)
+        arg0 = call.args[0] if call.args else None
+        start_tracked = 'asset.name'
+        if isinstance(arg0, ast.Name):
+            start_tracked = arg0.id
+        elif not (isinstance(arg0, ast.Attribute) and arg0.attr == 'name'):
+            start_tracked = 'asset.name'
+        st = [(snode, start_tracked, frozenset())]
+        if isinstance(arg0, ast.Name):
+            # ... and the local must BE the asset's name at that point: on every path from its definition to the add,
+            # asset.name is not given another value (else a name other than the asset's own is reserved)
+            stale = None
+            for d in cfg.reaching(snode, arg0.id):
+                if d.kind == 'stmt' and isinstance(d.ast, ast.Assign) and isinstance(d.ast.value, ast.Attribute) \
+                        and d.ast.value.attr == 'name' and isinstance(d.ast.value.value, ast.Name) and d.ast.value.value.id == 'asset':
+                    reach = cfg.reachable_from(d, avoiding=set())
+                    for a in name_assigns:
+                        if a[0].idx in reach and snode.idx in cfg.reachable_from(a[0], avoiding=set()) and a[0].idx != d.idx:
+                            rhs = a[2].value if isinstance(a[2], ast.Assign) else None
+                            if not (isinstance(rhs, ast.Name) and rhs.id == arg0.id):
+                                stale = a
+            if stale is not None:
+                insts.append(Inst(
+                    RULE, f.short, '(d) the name recorded in asset_names is the name the asset ends up with', 'violation',
+                    msg=(f"'{stmt_text(call)}' records '{arg0.id}', a copy of asset.name taken before "
+                         f"'{stmt_text(stale[2], 60)}' changes it: the name the asset finally carries is not reserved, a "
+                         f"later asset may be given exactly that name - two live assets share a name"),
+                    file=rel, line=call.lineno, props=props_d))
         while st:
             x, tracked, nones = st.pop()
             for p in x.pred:
